@@ -33,7 +33,7 @@ fn gen_string(rng: &mut Rng, class: &str, serial: u64, fmt: &str) -> String {
         "bmp" => "éÿ Ωж 日本語 ﷺ \u{FFFD} €".into(),
         "astral" => "😀𝄞𐍈 \u{10FFFF} x\u{1F468}\u{200D}\u{1F469}".into(),
         "long" => {
-            let n = *rng.pick(&[255usize, 256, 1000, 8000, 32_000]);
+            let n = *rng.pick(&[255usize, 256, 1000, 8000, 32_000, 32_762, 32_763, 32_765, 32_766, 32_767]);
             let unit = ["ab", "é日", "x "][rng.usize(3)];
             unit.repeat(n / unit.chars().count() + 1).chars().take(n).collect()
         }
